@@ -66,9 +66,15 @@ def judge_case(ctx, case, R, M, S):
     c = case["content"]
     nontrivial = bool(c["derived"]) or any("ia" in v for _, v in c["vars"] + c["pars"])
     ctx.count({k: case[k] for k in ("content", "queries")}, case.get("shape", ""), nontrivial)
-    for i, q in enumerate(case["queries"]):
-        sub = {"content": c, "queries": [q], "decl_seed": case.get("decl_seed", 0)}
-        ctx.judge(sub, R[i], S[i], None if M is None else M[i], what=f"query {q[0]}")
+    nq = len(case["queries"])
+    for i in range(len(R)):
+        q = case["queries"][i % nq]
+        # a query is judged together with everything asked before it (the history matters)
+        sub = {"content": c, "queries": case["queries"][: (i % nq) + 1], "decl_seed": case.get("decl_seed", 0)}
+        if i >= nq:
+            sub["edit"] = case["edit"]
+        ctx.judge(sub, R[i], S[i], None if M is None else M[i],
+                  what=f"query {q[0]}" + (" after edits" if i >= nq else ""))
 
 
 def run_batch(ctx, cases):
@@ -84,7 +90,15 @@ def gen_random(ctx):
         st = C.gen_state(rng, content, vals=(0, 1, 2, 4, 7))
         t = str(rng.choice([1, 2, 3, "1/2"]))
         qs += [["args", st, t], ["rhs", st, t], ["stoich", st, t]]
-    return {"content": content, "queries": qs, "decl_seed": rng.randrange(1 << 30), "shape": "rand:" + C.shape_of(content)[:14]}
+    # a Simulator override in the middle must leave the model's own answers alone
+    st = C.gen_state(rng, content, vals=(5, 7, 9))
+    qs += [["simupd", st[: rng.randint(1, len(st))]], ["init"], ["simy0"], ["args", None, "0"]]
+    case = {"content": content, "queries": qs, "decl_seed": rng.randrange(1 << 30), "shape": "rand:" + C.shape_of(content)[:14]}
+    if rng.random() < 0.5:
+        ed = cc.gen_edit(rng, content)
+        if ed:
+            case["edit"] = ed
+    return case
 
 
 def run(ctx):
